@@ -1,8 +1,6 @@
 package mongokit
 
 import (
-	"strings"
-
 	"github.com/256dpi/lungo/bsonkit"
 )
 
@@ -11,8 +9,14 @@ import (
 // The segments may be set to bsonkit.PathEnd if there are not available in the
 // path.
 func SplitDynamicPath(path string) (string, string, string) {
-	// find first "$" operator
-	index := strings.Index(path, "$")
+	// find first "$" operator (at the beginning of a segment)
+	index := -1
+	for i := 0; i < len(path); i++ {
+		if path[i] == '$' && (i == 0 || path[i-1] == '.') {
+			index = i
+			break
+		}
+	}
 
 	// return full path if no operator has been found
 	if index < 0 {
